@@ -389,6 +389,12 @@ func (ex *Exec) copyOp(st *State, t *ssa.Call, args []Val) Val {
 	if dst.Base != nil {
 		_, baseConst = dst.Base.Path[len(dst.Base.Path)-1].Index.Int64()
 	}
+	if okd && !oks && baseConst && s != nil {
+		// the source is longer than the fixed-size destination on this path (a dominating length check): copy fills it
+		if lt, known := st.Decided(Lt(st.Simplify(s.Len), sym.ConstI(dl))); known && !lt {
+			sl, oks = dl, true
+		}
+	}
 	if !okd || !oks || !baseConst {
 		// imprecise: forget the destination
 		ex.event(Event{Kind: EvUnmodelled, Pos: t.Pos(), Callee: "copy(symbolic length)", Args: args})
